@@ -242,6 +242,20 @@ TWINS = [
     ('so3-eul-branch-drops-unit', 'C15', 'pose3d.py', 'return np.array([base.tr2eul(x, unit=unit, flip=flip) for x in self.A])', 'return np.array([base.tr2eul(x, flip=flip) for x in self.A])', 'R8', 'SO3.eul'),
     ('twist2-exp-falsy-theta', 'C18', 'twist.py', "        if theta is None:\n            theta = 1\n        else:\n            theta = base.getunit(theta, units)\n\n        if base.isscalar(theta):\n            return SE2(", "        if not theta:\n            theta = 1\n        else:\n            theta = base.getunit(theta, units)\n\n        if base.isscalar(theta):\n            return SE2(", 'R10n', 'Twist2.exp'),
     ('adjoint-block-order', 'C20', 'base/transforms3d.py', '[R, base.skew(t) @ R]', '[R, R @ base.skew(t)]', 'R16', 'adjoint'),
+    # ---- mechanical-mutant misses
+    ('se3-t-element-disagree', 'C09', 'pose3d.py', 'return np.array([x[:3, 3] for x in self.A])', 'return np.array([x[:3, 2] for x in self.A])', 'R8', 'SE3.t'),
+    ('tr2rpy-pivot-list', 'C05', 'base/transforms3d.py', 'k = np.argmax(np.abs([R[0, 0], R[0, 1], R[1, 2], R[2, 2]]))', 'k = np.argmax(np.abs([R[0, 0], R[0, 1], R[1, 1], R[2, 2]]))', 'R19', 'tr2rpy'),
+    ('tr2rpy-singular-test-element', 'C05', 'base/transforms3d.py', 'if abs(abs(R[0, 2]) - 1) < 10 * _eps:', 'if abs(abs(R[0, 1]) - 1) < 10 * _eps:', 'R19', 'tr2rpy'),
+    ('tr2rpy-index-out-of-range', 'C05', 'base/transforms3d.py', 'rpy[2] = math.atan2(R[0, 2], R[2, 2])', 'rpy[2] = math.atan2(R[0, 3], R[2, 2])', 'R19', 'tr2rpy'),
+    ('binop-both-left', 'C09', 'smuserlist.py', 'return [op(left._A, right)]', 'return [op(left._A, left)]', 'R7', 'binop'),
+    ('twist2-rmul-lambda-one-arg', 'C09', 'twist.py', 'return Twist2(self.binop(left, lambda x, y: x * y))', 'return Twist2(self.binop(left, lambda x, y: x * x))', 'R7o', 'Twist2.__rmul__'),
+    ('se2-ctor-angle-from-y', 'C15', 'pose2d.py', 'self.data = [tr.trot2(x, unit=unit)]', 'self.data = [tr.trot2(y, unit=unit)]', 'R21', 'SE2.__init__'),
+    ('interp-endpoints-swapped', 'C11', 'super_pose.py', 'base.trinterp(start, x, s=s[0])', 'base.trinterp(x, start, s=s[0])', 'R14', 'SMPose.interp'),
+    ('mul-seq-matrix-rows', 'C06', 'super_pose.py', 'left.isSE and right.shape[0] == left.N and len(left) == right.shape[1]', 'left.isSE and right.shape[0] == left.N and len(left) == right.shape[0]', 'R16', 'SMPose.__mul__'),
+    ('se3-so3-check-ignored', 'C07', 'pose3d.py', 'elif base.isrot(R, check=check):', 'elif base.isrot(R):', 'R10d', 'SE3.SO3'),
+    ('eulervec-args-reordered', 'C04', 'pose3d.py', 'return cls(base.angvec2tr(theta, w), check=False)', 'return cls(base.angvec2tr(w, theta), check=False)', 'R13', 'SE3.EulerVec'),
+    ('oa2r-default-axis', 'C01', 'base/transforms3d.py', '    o = np.cross(a, n)\n    R = np.stack((base.unitvec(n), base.unitvec(o), base.unitvec(a)), axis=1)', '    o = np.cross(a, n)\n    R = np.stack((base.unitvec(n), base.unitvec(o), base.unitvec(a)))', 'R16', 'oa2r'),
+    ('se3-twist3-no-twist-option', 'C03', 'pose3d.py', 'return Twist3(self.log(twist=True))', 'return Twist3(self.log())', 'R21', 'SE3.Twist3'),
     ('distance-antiparallel', 'C19', 'geom3d.py', 'l1.v - l2.v * np.dot(l1.w, l2.w) / np.dot(l2.w, l2.w)', 'l1.v - l2.v * np.linalg.norm(l1.w) / np.linalg.norm(l2.w)', 'R23', 'distance'),
 ]
 
